@@ -165,6 +165,94 @@ func runC19(p *core.Prog, r *core.Report, tier string) {
 	if nDirect == 0 {
 		r.Hold("C19.5", "no-direct-level-reads", "", fmt.Sprintf("none of the %d configuration reads outside the hierarchical getters names a lower level of a hierarchical variable (%s)", nReads, strings.Join(vlist, ", ")))
 	}
+	// ---- (6) a level's own log level takes effect: zerolog drops every event below the global level whatever the
+	// logger's own level is, so the global level stays at the most verbose one (a more verbose level configured for
+	// a path would otherwise resolve correctly and still not apply) ----
+	nGlobal := 0
+	for _, f := range p.SrcFuncs() {
+		for _, ci := range core.Calls(f, func(c *ssa.CallCommon) bool {
+			return strings.HasSuffix(core.CalleeName(c), "rs/zerolog.SetGlobalLevel")
+		}) {
+			nGlobal++
+			a := ci.Common().Args[0]
+			c, isConst := a.(*ssa.Const)
+			okLvl := isConst && c.Value != nil && c.Value.String() == "-1"
+			r.Check(okLvl, "C19.6", fmt.Sprintf("%s|global-log-level#%d", core.FnKey(f), nGlobal), p.Pos(ci.Pos()), "the global log level is the most verbose one (trace)",
+				"the global log level is set to "+ds.D(a).String()+" instead of trace: a path whose most specific log-level is more verbose than that ends up logging at the global level, so the value resolved for the path is not the one in effect")
+		}
+	}
+	r.Floor("C19.6 global log level settings", nGlobal, 1)
+
+	// ---- (7) "unset" stays distinguishable: a top-level key whose absence makes the getter fall back to another key
+	// (beacon-node-addresses -> beacon-node-address) is not registered as a command-line flag (a registered flag
+	// always has a value, an empty non-nil one for slices, so the fallback would never be taken) ----
+	optional := map[string]bool{}
+	for g := range isGetter {
+		keys := map[string]bool{}
+		tested := map[string]bool{}
+		core.EachInstr(g, func(in ssa.Instruction) {
+			c, ok := in.(*ssa.Call)
+			if !ok {
+				return
+			}
+			if _, ok := isViperGetter(&c.Call); !ok || len(c.Call.Args) == 0 {
+				return
+			}
+			k, ok := constString(c.Call.Args[0])
+			if !ok || k == "" || strings.Contains(k, ".") {
+				return
+			}
+			keys[k] = true
+			// used in a branch condition?
+			if c.Referrers() != nil {
+				for _, ref := range *c.Referrers() {
+					if b, ok := ref.(*ssa.BinOp); ok && b.Referrers() != nil {
+						for _, r2 := range *b.Referrers() {
+							if _, isIf := r2.(*ssa.If); isIf {
+								tested[k] = true
+							}
+						}
+					}
+				}
+			}
+		})
+		if len(keys) >= 2 {
+			for k := range tested {
+				optional[k] = true
+			}
+		}
+	}
+	nFlags, nBad := 0, 0
+	for _, f := range p.SrcFuncs() {
+		for _, ci := range core.Calls(f, func(c *ssa.CallCommon) bool {
+			callee := c.StaticCallee()
+			return callee != nil && callee.Pkg != nil && strings.HasSuffix(callee.Pkg.Pkg.Path(), "spf13/pflag") && callee.Signature.Recv() == nil
+		}) {
+			if len(ci.Common().Args) == 0 {
+				continue
+			}
+			name, ok := constString(ci.Common().Args[0])
+			if !ok {
+				continue
+			}
+			nFlags++
+			if optional[name] {
+				nBad++
+				r.Violate("C19.7", "flag|"+name, p.Pos(ci.Pos()), "the top-level key "+name+" is registered as a command-line flag, but its getter decides by its absence whether to fall back to another key: with the flag registered the key is never absent, so a configuration that only sets the fallback key resolves to nothing at every level that falls through to the top")
+			}
+		}
+	}
+	if nBad == 0 {
+		var ol []string
+		for k := range optional {
+			ol = append(ol, k)
+		}
+		sort.Strings(ol)
+		r.Hold("C19.7", "optional-top-level-keys-not-flags", "", fmt.Sprintf("%d flag registrations, none for a key with an absence fallback (%s)", nFlags, strings.Join(ol, ", ")))
+	}
+	r.Floor("C19.7 flag registrations", nFlags, 5)
+	r.Floor("C19.7 top-level keys with an absence fallback", len(optional), 1)
+
 	r.Floor("C19.5 hierarchical variables", len(vlist), 4)
 	r.Floor("C19.5 configuration reads swept", nReads, 20)
 }
